@@ -237,6 +237,9 @@ def classify_disagreement(c, er):
     else:
         sym = "wrong-result"
     flags = c.get("flags", [])
+    if (not er["ok"] and "Could not convert string" in er.get("msg", "") and __import__("re").search(r"\|\|\s*null|null\s*\|\|", c["script"])):
+        # `x || null` stored as an intermediate result gets DuckDB's default type for an all-NULL column (INT32); a later string operation on it fails
+        return "null-constant-concat:intermediate-result-not-typed-string"
     if sym == "decimal-scale-overflow":   # one root cause (DECIMAL(28,10): every * adds the scales), nested or not
         return "number-multiplication:decimal-scale-overflow"
     if (CLAUSE_ON_RESULT.search(c["script"]) and "measure-renaming-operator" in flags and not er["ok"]
